@@ -39,6 +39,7 @@ fn dispatch(line: &str) -> String {
         "storm" => server::storm_line(&toks),
         "abort" => server::abort_line(&toks),
         "timing" => server::timing_line(&toks),
+        "errstop" => server::errstop_line(&toks),
         "multi" => multi::multi_line(&toks),
         "cli" => client::cli_line(&toks),
         _ => "bad-op".to_string(),
